@@ -79,6 +79,10 @@ def cases(tier, seed):
         # with another object (scoring a model under another noise level / noise model; a deep copy scored with the original's)
         for which, n_ in itertools.product(("other_gauss", "fixed", "deepcopy_then_move"), (3, 6)):
             yield {"kind": "other_likelihood", "which": which, "n": n_, "objective": "mll", "seed": rnd.randrange(10**6)}
+        # the objective of a model obtained through get_fantasy_model (its likelihood carries the old and the new fixed noise,
+        # the learned additional noise once): dense log density of the concatenated data
+        for lk_, n_ in itertools.product(("gauss", "fixed", "fixed+learn"), (3, 5)):
+            yield {"kind": "fantasy_mll", "lik": lk_, "n": n_, "objective": "mll", "seed": rnd.randrange(10**6)}
         # priors handed to the constructors (`<parameter>_prior=`): each must enter at the constrained value of ITS parameter
         for variant in ("cyl", "std"):
             yield {"kernel": {"k": "ctor_" + variant}, "mean": "constant", "lik": "gauss", "n": rnd.choice([3, 6]), "d": 2, "batch": [], "priors": "ctor", "objective": rnd.choice(["mll", "loo"]),
@@ -354,6 +358,46 @@ def _hetero(case, ctx, g):
     ctx.cell({k: v for k, v in case.items() if k != "seed"}, nontrivial=True)
 
 
+def _fantasy_mll(case, ctx, g):
+    import torch
+
+    import gpytorch
+    from vf import util
+
+    n, k = case["n"], 2
+    X, y = util.randn(g, n, 2), util.randn(g, n)
+    fixed = util.rand(g, n) * 0.4 + 0.05
+    if case["lik"] == "gauss":
+        lik = gpytorch.likelihoods.GaussianLikelihood()
+    else:
+        lik = gpytorch.likelihoods.FixedNoiseGaussianLikelihood(noise=fixed.clone(), learn_additional_noise=case["lik"] == "fixed+learn")
+    m = util.GP(X, y, lik, gpytorch.means.ConstantMean(), gpytorch.kernels.ScaleKernel(gpytorch.kernels.RBFKernel()))
+    util.randomize(m, g, 0.5)
+    m.eval()
+    Xf, yf, nf = util.randn(g, k, 2), util.randn(g, k), util.rand(g, k) * 0.4 + 0.05
+    with torch.no_grad():
+        m(util.randn(g, 3, 2))
+        fm = m.get_fantasy_model(Xf, yf, **({"noise": nf} if case["lik"] != "gauss" else {}))
+    fm.train()
+    fm.likelihood.train()
+    mll = gpytorch.mlls.ExactMarginalLogLikelihood(fm.likelihood, fm)
+    got = mll(fm(*fm.train_inputs), fm.train_targets)
+    Xa, ya = torch.cat([X, Xf]), torch.cat([y, yf])
+    mx, Kxx = fm.mean_module(Xa), fm.covar_module(Xa).to_dense()
+    if case["lik"] == "gauss":
+        S_ = fm.likelihood.noise * torch.eye(n + k)
+    else:
+        S_ = torch.diag(torch.cat([fixed, nf])) + ((fm.likelihood.second_noise * torch.eye(n + k)) if case["lik"] == "fixed+learn" else 0.0)
+    ref = util.mvn_logpdf(ya, mx, Kxx + S_) / (n + k)
+    ctx.close("mll_value", got, ref, "direct", cls="mll:fantasy_model:" + case["lik"])
+    ps = [p_ for p_ in fm.parameters() if p_.requires_grad]
+    gg, gr = torch.autograd.grad(got, ps, allow_unused=True, retain_graph=True), torch.autograd.grad(ref, ps, allow_unused=True)
+    for a_, b_ in zip(gg, gr):
+        if b_ is not None:
+            ctx.close("mll_grad", torch.zeros_like(b_) if a_ is None else a_, b_, (1e-8, 1e-7), cls="mll:fantasy_model:grad:" + case["lik"])
+    ctx.cell({k_: v_ for k_, v_ in case.items() if k_ != "seed"}, nontrivial=True)
+
+
 def _other_likelihood(case, ctx, g):
     import copy
 
@@ -422,6 +466,8 @@ def run_case(case, ctx):
         return _hetero(case, ctx, g)
     if case.get("kind") == "other_likelihood":
         return _other_likelihood(case, ctx, g)
+    if case.get("kind") == "fantasy_mll":
+        return _fantasy_mll(case, ctx, g)
     if case.get("kind") == "sgpr_bound":
         from vf.checks import c09
 
